@@ -29,7 +29,7 @@ class Boom(Exception):
 
 def plan(tier, seed):
     if tier == 'quick':
-        return {'n': 12000, 'deadline': 50,
+        return {'n': 12000, 'deadline': 150,
                 'floor': {'distinct_nontrivial': 2000, 'python_predicate_calls': 20000, 'style_inferred': 1000,
                           'style_explicit': 1000, 'style_variadic': 1000, 'exception_identity_checked': 500,
                           'next_to_dynamic_facts': 500, 'trace_compared': 3000}}
